@@ -43,7 +43,7 @@ func wireGated(c *Ctx, props ...string) map[string]bool {
 }
 
 func genC13(rt *rapid.T, c *Ctx) WKCase {
-	o := spec.WOpts{MaxUnits: 9, MaxFiles: 2, Allow: wireGated(c, "C13"), OnExclude: func(f string) { c.Rep.Exclude(f) }}
+	o := spec.WOpts{MaxUnits: 9, MaxFiles: 2, Allow: wireGated(c, "C13"), OnExclude: func(f string) { c.Rep.Exclude(f) }, ExtNames: rapid.IntRange(0, 2).Draw(rt, "extnames") == 0}
 	return WKCase{W: spec.GenWire(rt, o), Salt: uint32(rapid.IntRange(1, 1<<16).Draw(rt, "salt"))}
 }
 
